@@ -15,17 +15,42 @@ VALUATIONS = [
      'nacl': ('solid', 84.007), 'na2so4': ('solid', 342.3), 'lipase': ('enzyme', '0.25 mg/U')},
 ]
 CLASSES = {'SOLID': 1, 'LIQUID': 2, 'ENZYME': 3}
+# twins: distinct substances that carry the NAME of another role (a hydrate next to the anhydrous salt, another grade of a
+# solvent, an inactive solid preparation next to the enzyme). A substance is what its parameters say, not what it is called.
+TWINS = {'nacl_h': ('nacl', 'solid', 1.3083), 'dmso_x': ('dmso', 'liquid', 1.0417, 0.9127), 'lipase_s': ('lipase', 'solid', None)}
 
 
-def substances(pp, vidx):
+def ident(s):
+    """What a substance IS, independent of Substance.__eq__/__hash__ (name, kind, molecular weight, density, activity)."""
+    return (s.name, 'enzyme' if s.is_enzyme() else 'liquid' if s.is_liquid() else 'solid', getattr(s, 'mol_weight', None),
+            getattr(s, 'density', None), getattr(s, 'specific_activity', None))
+
+
+def by_ident(contents):
+    """contents keyed by ident (amounts of entries the implementation keeps apart are added only if they ARE the same)."""
     out = {}
-    for name, spec in VALUATIONS[vidx % len(VALUATIONS)].items():
+    for s, a in contents.items():
+        out[ident(s)] = out.get(ident(s), 0.0) + a
+    return out
+
+
+def substances(pp, vidx, twins=True):
+    out = {}
+    val = VALUATIONS[vidx % len(VALUATIONS)]
+    for name, spec in val.items():
         if spec[0] == 'liquid':
             out[name] = pp.Substance.liquid(name, spec[1], spec[2])
         elif spec[0] == 'solid':
             out[name] = pp.Substance.solid(name, spec[1])
         else:
             out[name] = pp.Substance.enzyme(name, spec[1])
+    if twins:
+        for role, t in TWINS.items():
+            base = val[t[0]]
+            if t[1] == 'solid':
+                out[role] = pp.Substance.solid(t[0], 231.7 if t[2] is None else round(base[1] * t[2], 4))
+            else:
+                out[role] = pp.Substance.liquid(t[0], round(base[1] * t[2], 4), round(base[2] * t[3], 4))
     return out
 
 
